@@ -733,7 +733,7 @@ pub fn tokens(path: &str, out_dir: &str, thorough: bool, skip: usize) -> Result<
     std::thread::spawn(move || loop {
         std::thread::sleep(std::time::Duration::from_millis(250));
         let s = st2.load(Ordering::Relaxed);
-        if s > 0 && t0.elapsed().as_millis() as u64 > s + 8000 {
+        if s > 0 && t0.elapsed().as_millis() as u64 > s + 60000 {
             let c = cur2.lock().map(|g| g.clone()).unwrap_or_default();
             let _ = std::fs::write(format!("{}/TIMEOUT.json", od), c);
             std::process::exit(3);
